@@ -39,13 +39,13 @@ SPEC = dict(
              'invariant and the regenerated to_boc is the lookup + layout of exactly these cells (C04: c04_src_order_valid_any, c04_src_to_boc_any); c03_roundtrip_src2: regenerated emitter, regenerated '
              'input-form detection and regenerated parser compose to the identity on every spec-valid DAG and all 6 valid option sets (bytes, hex and base64 form) - proved through the round trip for ANY '
              'valid order (Proofs/BocRoundTripAny.lean), not through the hand model of the traversal; the equality regenerated to_boc = PCell.toBoc (c03_src_emitter) is the separate module '
-             'Properties/C04Model.lean (if only it breaks: traversal tie = valid-order-only, see C04). bytes.fromhex / base64.b64decode, the cell constructor (C01/C02 tie) and the entry points stay hand models.',
+             'Properties/C04Model.lean (if only it breaks: traversal tie = valid-order-only, see C04). TIE TO THE SOURCE, entry points: Cell.from_boc / one_from_boc (incl. the more-than-one-root raise), Slice.one_from_boc, Builder.one_from_boc / from_boc, Cell.begin_parse / to_slice / to_builder (refusal of exotic cells, capacity raises of store_cell) / copy, Slice.to_cell / copy / from_cell, Builder.end_cell / to_cell / to_slice are regenerated on every run as VALUE functions (harness/translate/entrysrc.py + pyvalue.py -> Generated/EntrySrc.lean; a cell object = its cached attributes + child objects; Cell(...) and the class handed to Boc.deserialize = the REGENERATED constructor of Generated/CellCtor.lean, Builder().store_cell = the regenerated Builder.store_cell, Boc(data) / deserialize = the regenerated Boc.__init__ / Boc.deserialize; validated against the library on 52 root objects and ~200 inputs incl. bags with 0 and 2 roots, damaged bags and the three input forms) and proved equal to Model/BocEntry.lean for all arguments / cell / slice / builder objects (c03_src_entrypoints; the parser is shown natural in the cell constructor: Proofs/SrcEntry.lean deserialize_map, deserialize_inv). c03_roundtrip_src3: regenerated emitter -> regenerated Boc.__init__ / parser / CONSTRUCTOR -> regenerated entry point returns THE ORIGINAL OBJECT VALUE (same cached hashes, depths, mask, bits, type at every sub-object) through bytes, hex and base64; the Slice entry returns all bits / child objects / the type with nothing consumed, the Builder entry exactly these for an ordinary root and raises for an exotic one; begin_parse().to_cell(), copy() and to_builder().end_cell() give the original back. bytes.fromhex / base64.b64decode stay hand models.',
         level_note='Trusted: Lean kernel (propext, Classical.choice, Quot.sound); the hand models Model/BocEmit.lean (proved equal to the emitter regenerated from cell.py: translator pydict.py / pyobj.py + declared interface in bocemit.py + PyDict.lean trusted, validated against the library on every change; also tied byte-for-byte in C04), Model/BocParse.lean (header parser, cell reader and the loops of deserialize: proved equal to the functions regenerated from the source, translator harness/translate/pyloops.py + pybytes.py trusted and validated against CPython on every change; Boc.__init__: tied differentially in C05 and here on '
-                   'every emitted bag <= 1500 bytes), Model/BocForms.lean (bocinput correspondence), Model/BocEntry.lean (bocone correspondence) and Model/Cell.lean (constructor, C01/C02); '
+                   'every emitted bag <= 1500 bytes), Model/BocForms.lean (bocinput correspondence), Model/BocEntry.lean (proved equal to the entry points regenerated from cell.py / slice.py / builder.py: translator pyvalue.py + declared interface in entrysrc.py + PyEntry.lean trusted, validated against the library on every change; also the bocone correspondence) and Model/Cell.lean (constructor, C01/C02; the regenerated entry points call the REGENERATED constructor); '
                    'base64/binascii/bytes.fromhex behave as modelled; SHA-256 abstract (arbitrary H) with the local NoCollision hypothesis; bounds 2^32 cells / 2^63 payload bytes are the format\'s. '
                    'Sampled only: model <-> library agreement (~15k model round trips + ~16k library round trips per quick run incl. 255/256/257 cells, payload 127..65536 bytes, depth-1023 chains, exotic cells, '
                    'maximal sharing; thorough: 65535/65536/70000 cells).',
-        technique='Lean 4 proof (hand models of emitter and parser composed through the spec encoder; the parser model is proved equal to the parser regenerated from the source on every run) '
+        technique='Lean 4 proof (hand models of emitter and parser composed through the spec encoder; emitter, input forms, parser and entry points are regenerated from the source on every run and proved equal to the models; round trip on object values through the regenerated constructor) '
                   '+ full round trip through the library as oracle + differential correspondence of every model',
     ),
     translators=[('deserialize.py deserialize_boc_header, deserialize_cell, deserialize->Generated/BocHeader.lean, BocCells.lean', boccells.regenerate),
@@ -63,7 +63,7 @@ SPEC = dict(
     trusted_base=['Model/BocForms.lean mirrors the bytes / hex / base64 detection of Boc.__init__ by hand (bocinput correspondence)',
                   'Model/BocEmit.lean: Cell.order / serialize / to_boc proved equal to the functions regenerated from cell.py (c03_src_emitter; trusted: translator pydict.py + interface in bocemit.py + PyDict.lean); Model/BocForms.inputBytes proved equal to the regenerated Boc.__init__ (c03_src_forms; fromhex / b64decode stay hand models)',
                   'Model/BocParse.lean: deserialize_boc_header / deserialize_cell / deserialize are proved equal to the functions regenerated from the source (c03_src_parser; trusted: the translator pyloops.py / pybytes.py and PyBytes.lean); Boc.__init__ by correspondence',
-                  'Model/BocEntry.lean mirrors the three one_from_boc class methods, begin_parse and to_builder (bocone correspondence)'],
+                  'Model/BocEntry.lean mirrors the three one_from_boc class methods, begin_parse and to_builder: proved equal to the functions regenerated from the source (c03_src_entrypoints; trusted: translator pyvalue.py, the declared interface in entrysrc.py - a cell object = PCell, Cell(...) = the regenerated constructor, containers read by content - and lean/TonVerif/PyEntry.lean); also the bocone correspondence'],
     assumptions=['bytes.fromhex / base64.b64decode behave as modelled', 'SHA-256 is abstract: theorems hold for every H under the local NoCollision hypothesis on the cells at hand'],
 )
 
